@@ -256,6 +256,9 @@ func extFact(c *x509.Certificate, oid asn1.ObjectIdentifier) string {
 	return "n"
 }
 
+// B renders a Boolean fact.
+func B(v bool) string { return b(v) }
+
 func b(v bool) string {
 	if v {
 		return "1"
@@ -405,9 +408,9 @@ func SigBy(child, parent *x509.Certificate) (ok bool) {
 }
 
 // X509FactsWord renders the finer facts the model uses to cross-check the oracle:
-// "<asByCa> <nroots> (<caByRoot>:<nb>:<na>)*".
-func X509FactsWord(leaf, inter *x509.Certificate, roots []*x509.Certificate, ref time.Time) string {
-	w := []string{b(SigBy(leaf, inter)), fmt.Sprintf("%d", len(roots))}
+// "<nroots> (<caByRoot>:<nb>:<na>)*".
+func X509FactsWord(inter *x509.Certificate, roots []*x509.Certificate, ref time.Time) string {
+	w := []string{fmt.Sprintf("%d", len(roots))}
 	for _, r := range roots {
 		w = append(w, fmt.Sprintf("%s:%d:%d", b(SigBy(inter, r)), Rel(r.NotBefore, ref), Rel(r.NotAfter, ref)))
 	}
